@@ -31,7 +31,7 @@ from gtirb_test_helpers import (
 )
 
 import gtirb_rewriting
-from gtirb_rewriting import Constraints, Patch, RewritingContext
+from gtirb_rewriting import Patch, RewritingContext
 
 from ..core import TaskResult
 
@@ -64,26 +64,34 @@ ASSUMPTIONS = [
     "(statement silent on 'unknown caller' proxies); jump/jcc retargets (tail calls) must leave Return edges alone",
     "a control-flow use of a *data* symbol A is not generated (no consistent CFG exists for it); control flow "
     "retargeted *into* data is generated and must be refused",
-    "SymAddrAddr expressions, MIPS32, IA32 and modules whose expressions sit outside any block are not covered",
+    "SymAddrAddr expressions, MIPS32, IA32 and modules whose expressions sit outside any block are not covered; "
+    "insertions/deletions are only combined with retargets on x86-64 (ELF, and PE in the thorough tier)",
     "gtirb, gtirb_functions, capstone and the assembler (for the inserted patches) are trusted",
 ]
 BOUNDS = {
     "quick": {
-        "x64-elf": "27 kinds x PIE/non-PIE x all 512 (A data: 64) use subsets x 3 retarget sets, canonical attributes; "
-        "swapped-attribute style on use subsets of size <= 2 and the full set; "
-        "one insertion/deletion (17 (op, place) pairs) x the other byte-level uses all on / all off x table uses on",
-        "arm64-elf": "27 kinds x PIE/non-PIE x use subsets of size <= 2 and the full set x 3 retarget sets x 2 styles",
-        "x64-pe": "27 kinds x all 128 (A data: 16) subsets of the 7 non-CFI uses x 3 retarget sets",
-        "invalid": "9 request shapes x 9 (A,B) kinds + control flow into data inside the products",
+        "kinds": "A in {code function entry, data block, external proxy, local label in main (x64-elf only)} x B, C in "
+        "{code, data, proxy}: 36 (27) combinations; A data: no control-flow uses",
+        "x64-elf": "PIE/non-PIE x [all 512 use subsets x {A->B}] + [all 32 subsets of the byte-level uses x table uses "
+        "all on/all off x {A->B,C->B | chain}] + [swapped-attribute style: subsets of size <= 2 and the full set x {A->B}]; "
+        "label kind: the 64 'blockwise' subsets x 3 retarget sets",
+        "x64-elf-mods": "PIE/non-PIE x 18 (op, place) single modifications (insert before block / before use / after use, "
+        "delete preceding mov / bystander lea, insert a patch `call A`) x other byte-level uses all on / all off, table uses on x 3 retarget sets",
+        "arm64-elf": "PIE/non-PIE x use subsets of size <= 2 and the full set x 3 retarget sets (+ swapped style x {A->B})",
+        "x64-pe": "all 128 subsets of the 7 non-CFI uses x {A->B} + blockwise subsets x the two other retarget sets",
+        "invalid": "8 refused request shapes x 9 (A,B) kinds x PIE/non-PIE; control flow into data inside every product",
     },
     "thorough": {
-        "x64-elf": "quick + swapped style on all subsets + modifications x all subsets of the other byte-level uses x table uses on/off",
-        "arm64-elf": "all 512 subsets x 2 styles",
-        "x64-pe": "quick + swapped style + modifications as for ELF quick",
+        "x64-elf": "36 kinds x PIE/non-PIE x all 512 subsets x 3 retarget sets x 2 attribute styles",
+        "arm64-elf": "as x64-elf",
+        "x64-pe": "36 kinds x all 128 subsets x 3 retarget sets x 2 styles",
+        "x64-elf-mods": "18 single modifications x all 32 subsets of the other byte-level uses x table uses on/off x 3 retarget sets",
+        "x64-elf-mods2": "PIE, all pairs of modifications at two different places, byte-level uses all on / all off",
+        "x64-pe-mods": "as quick x64-elf-mods",
         "invalid": "as quick",
     },
 }
-CAP_S = {"quick": 120, "thorough": 1800}
+CAP_S = {"quick": 240, "thorough": 1800}
 
 ET = gtirb.Edge.Type
 AT = gtirb.SymbolicExpression.Attribute
@@ -162,8 +170,6 @@ def canon_attrs(abi, pie, role, sub, internal):
 
 # ---------------------------------------------------------------- instruction tables
 class X64:
-    exsize_cf = {"call": 4, "jmp": 1, "jcc": 1}
-
     @staticmethod
     def ordinary(t):
         return [(bytes([0xB0, t]), None)]
@@ -181,7 +187,7 @@ class X64:
         }[which]
 
     ret = [(b"\xc3", None)]
-    patch_ordinary = "mov bl, 0x77"
+    patch_ordinary = "movb $0x77, %bl"
     patch_call = "call A"
 
     @staticmethod
@@ -246,6 +252,26 @@ def isa_of(abi):
     return ARM64 if abi == "arm64-elf" else X64
 
 
+def selfcheck_tables():
+    """The hand-typed encodings decode (capstone) to the instructions the builder means."""
+    import capstone
+
+    def mnems(cs, items):
+        return [next(cs.disasm(raw, 0x1000)).mnemonic for raw, _ in items]
+
+    x = capstone.Cs(capstone.CS_ARCH_X86, capstone.CS_MODE_64)
+    a = capstone.Cs(capstone.CS_ARCH_ARM64, capstone.CS_MODE_ARM)
+    got = {
+        "x64": mnems(x, X64.ordinary(0x10) + X64.coderef(0) + X64.coderef(1) + X64.cf("call") + X64.cf("jmp") + X64.cf("jcc") + X64.ret),
+        "arm64": mnems(a, ARM64.ordinary(0x10) + ARM64.coderef(0) + ARM64.coderef(1) + ARM64.cf("call") + ARM64.cf("jmp") + ARM64.cf("jcc") + ARM64.ret),
+    }
+    want = {
+        "x64": ["mov", "lea", "lea", "call", "jmp", "je", "ret"],
+        "arm64": ["mov", "adrp", "add", "adrp", "add", "bl", "b", "b.eq", "ret"],
+    }
+    assert got == want, "harness: instruction tables do not decode as intended: %r" % (got,)
+
+
 # ---------------------------------------------------------------- module builder
 class World:
     pass
@@ -283,18 +309,26 @@ def build(case):
     for n in "ABC":
         if kind[n] == "p":
             sym[n].referent = add_proxy_block(m)
+    # kind "l" (A only): a local label on m3, the block m2 falls through to - so `je A` has a Branch and a
+    # Fallthrough edge to the same block and `call A` calls a block that is no function entry
 
     def has(u):
         return bool(uses & UBIT[u])
 
     def expr_for(name, role, sub):
         internal = kind[name] != "p"
+        # non-zero addends where the CFG does not care: code references +4 (A) / +0 (others), data words +16 / +8
+        addend = 0
+        if role == "code":
+            addend = 4 if name == "A" else 0
+        elif role == "data":
+            addend = {"A": 16, "C": 8, "B": 0}[name]
         if style:
             # attributes of the opposite side, taken from the PIE flavour (never matches a rule)
             names = canon_attrs(abi, 1, role, sub, not internal)
         else:
             names = canon_attrs(abi, pie, role, sub, internal)
-        return gtirb.SymAddrConst(0, sym[name], {getattr(AT, a) for a in names})
+        return gtirb.SymAddrConst(addend, sym[name], {getattr(AT, a) for a in names})
 
     def code_block(items):
         data = b""
@@ -333,6 +367,8 @@ def build(case):
         [("mov", None, I.ordinary(0x15)), bys()]
         + ([("use", "A", I.cf("jmp"))] if has("jmp") else [("ret", None, I.ret)]),
     )
+    if kind["A"] == "l":
+        sym["A"].referent = blocks["m3"]
     t = 0x20
     for n in "ABC":
         if kind[n] == "c":
@@ -659,7 +695,7 @@ def compare(case, before, after, exp, info):
         if got == want:
             continue
         role, sub, old = info["roles"].get(key, (None, None, None))
-        usek = (sub if role in ("cf",) or (role == "code" and sub in ("page", "lo12")) else None) or role
+        usek = sub if role == "cf" else ("code-" + sub if sub in ("page", "lo12") else role)
         if got is None or want is None:
             diffs.append(D("expr-set-changed", key=list(key), got=got, expected=want))
         elif key in info["roles"]:
@@ -839,12 +875,14 @@ def register_mod(ctx, w, mod):
 
 
 def mod_applicable(case):
-    mod = case.get("mod")
-    if not mod:
-        return True
-    if mod[0] == "inscall":
-        return case["kinds"][0] != "d"
-    return bool(case["uses"] & UBIT[mod[1]])
+    """case["mod"] is a list of (op, place) pairs, at most one per place."""
+    for op, place in case.get("mod") or ():
+        if op == "inscall":
+            if case["kinds"][0] == "d":
+                return False
+        elif not case["uses"] & UBIT[place]:
+            return False
+    return True
 
 
 def run_case(case, baseline_cache=None):
@@ -856,14 +894,15 @@ def run_case(case, baseline_cache=None):
     if mod:
         ck = None
         if baseline_cache is not None:
-            ck = (case["abi"], case["pie"], case["kinds"], case["uses"], case.get("style", 0), tuple(mod))
+            ck = (case["abi"], case["pie"], case["kinds"], case["uses"], case.get("style", 0), repr(mod))
             before = baseline_cache.get(ck)
         else:
             before = None
         if before is None:
             wb = build(case)
             cb = RewritingContext(wb.m, gtirb_functions.Function.build_functions(wb.m))
-            register_mod(cb, wb, mod)
+            for one in mod:
+                register_mod(cb, wb, one)
             cb.apply()
             before = snapshot(wb.m)
             if ck is not None:
@@ -874,8 +913,8 @@ def run_case(case, baseline_cache=None):
 
     exp, info = predict(case, before, kind)
     ctx = RewritingContext(w.m, gtirb_functions.Function.build_functions(w.m))
-    if mod:
-        register_mod(ctx, w, mod)
+    for one in mod or ():
+        register_mod(ctx, w, one)
     try:
         for o, n in R:
             ctx.retarget_symbol_uses(w.sym[o], w.sym[n])
@@ -887,7 +926,6 @@ def run_case(case, baseline_cache=None):
     except Exception as ex:  # noqa
         err = ex
     if isinstance(exp, tuple):
-        nontrivial = True
         if err is None:
             return [D("invalid-request-accepted", r_request="control-flow-into-data")], "refuse-missed", True
         if not isinstance(err, (ValueError, gtirb_rewriting.AmbiguousIRError)):
@@ -928,7 +966,6 @@ INVALID = (
     "twice-same",
     "twice-other",
     "twice-after-chain",
-    "cf-into-data-direct",
 )
 
 
@@ -965,11 +1002,8 @@ def run_invalid(case):
         ctx.retarget_symbol_uses(B, C)
         accepted = "chain"
         pair = (A, C)
-    elif req == "cf-into-data-direct":
-        # handled by the products; here the smallest module: a single call
-        pair = None
     diffs = []
-    if pair is not None:
+    if pair:
         try:
             ctx.retarget_symbol_uses(*pair)
             diffs.append(D("invalid-request-accepted", r_request=req))
@@ -1007,8 +1041,6 @@ def run_invalid(case):
         for d in d2:
             d["after_refused_request"] = req
         return d2, "refused:first-request-applied"
-    # cf-into-data-direct
-    return [], "n/a"
 
 
 # ---------------------------------------------------------------- enumeration
@@ -1030,22 +1062,33 @@ def popcount(x):
 
 
 ALL_KINDS = ["".join(k) for k in itertools.product("cdp", repeat=3)]
+LABEL_KINDS = ["l" + "".join(k) for k in itertools.product("cdp", repeat=2)]
 
 
 def tasks(tier):
     t = []
-    for kinds in ALL_KINDS:
+    for kinds in ALL_KINDS + LABEL_KINDS:
+        label = kinds[0] == "l"
         for pie in (0, 1):
             t.append({"g": "x64-elf", "abi": "x64-elf", "pie": pie, "kinds": kinds, "part": "subsets"})
             t.append({"g": "x64-elf-mods", "abi": "x64-elf", "pie": pie, "kinds": kinds, "part": "mods"})
-            t.append({"g": "arm64-elf", "abi": "arm64-elf", "pie": pie, "kinds": kinds, "part": "subsets"})
-        t.append({"g": "x64-pe", "abi": "x64-pe", "pie": 0, "kinds": kinds, "part": "subsets"})
+            if tier == "thorough" or not label:
+                t.append({"g": "arm64-elf", "abi": "arm64-elf", "pie": pie, "kinds": kinds, "part": "subsets"})
+        if tier == "thorough" or not label:
+            t.append({"g": "x64-pe", "abi": "x64-pe", "pie": 0, "kinds": kinds, "part": "subsets"})
         if tier == "thorough":
             t.append({"g": "x64-pe-mods", "abi": "x64-pe", "pie": 0, "kinds": kinds, "part": "mods"})
-    t.append({"g": "invalid", "part": "invalid"})
+            t.append({"g": "x64-elf-mods2", "abi": "x64-elf", "pie": 1, "kinds": kinds, "part": "mods2"})
+    # interleave the groups (a time cap then thins all of them evenly) and put the tiny invalid-request task first
+    by_group = {}
     for x in t:
+        by_group.setdefault(x["g"], []).append(x)
+    order = [{"g": "invalid", "part": "invalid"}]
+    for row in itertools.zip_longest(*by_group.values()):
+        order.extend(x for x in row if x is not None)
+    for x in order:
         x["tier"] = tier
-    return t
+    return order
 
 
 def task_group(task):
@@ -1056,34 +1099,55 @@ def cases_of(task):
     tier = task["tier"]
     part = task["part"]
     if part == "invalid":
+        selfcheck_tables()
         for kinds in ALL_KINDS:
             if kinds[2] != "p":
                 continue
             for abi, pie in (("x64-elf", 1), ("x64-elf", 0)):
-                for req in INVALID[:-1]:
+                for req in INVALID:
                     uses = 511 if kinds[0] != "d" else (511 & ~CF_USES)
                     yield {"invalid": req, "abi": abi, "pie": pie, "kinds": kinds, "uses": uses}
         return
     abi, pie, kinds = task["abi"], task["pie"], task["kinds"]
     allowed = 511 if abi != "x64-pe" else (511 & ~CFI_MASK)
-    small = lambda u: popcount(u) <= 2 or u == (allowed if kinds[0] != "d" else allowed & ~CF_USES)  # noqa
+    full = allowed if kinds[0] != "d" else allowed & ~CF_USES
+
+    def small(u):
+        return popcount(u) <= 2 or u == full
+
+    def blockwise(u):
+        # every subset of the byte-level uses, table uses all on or all off
+        return (u & TABLE_MASK) in (0, full & TABLE_MASK)
+
     if part == "subsets":
-        if abi == "x64-elf":
-            plans = [(0, None), (1, None if tier == "thorough" else small)]
+        # plans: (style, rsets, subset predicate)
+        if tier == "thorough":
+            plans = [(0, tuple(RSETS), None), (1, tuple(RSETS), None)]
+        elif abi == "x64-elf" and kinds[0] == "l":
+            plans = [(0, tuple(RSETS), blockwise), (1, ("ab",), small)]
+        elif abi == "x64-elf":
+            plans = [(0, ("ab",), None), (0, ("ab_cb", "chain"), blockwise), (1, ("ab",), small)]
         elif abi == "arm64-elf":
-            plans = [(0, None if tier == "thorough" else small), (1, None if tier == "thorough" else small)]
+            plans = [(0, tuple(RSETS), small), (1, ("ab",), small)]
         else:
-            plans = [(0, None)] + ([(1, None)] if tier == "thorough" else [])
-        for style, pred in plans:
+            plans = [(0, ("ab",), None), (0, ("ab_cb", "chain"), blockwise)]
+        for style, rsets, pred in plans:
             for uses in subsets_for(kinds, allowed, pred):
-                for rset in RSETS:
+                for rset in rsets:
                     yield {"abi": abi, "pie": pie, "kinds": kinds, "uses": uses, "style": style, "rset": rset}
         return
-    # part == "mods"
+    # part == "mods": one modification next to a use (or, part == "mods2", two at different places)
     byte_bits = [UBIT[u] for u in BYTE_USES]
-    for mod in ALL_MODS:
-        op, place = mod
-        if tier == "thorough" and abi == "x64-elf":
+    if part == "mods2":
+        modsets = [
+            [list(a), list(b)]
+            for a, b in itertools.combinations(ALL_MODS, 2)
+            if a[1] != b[1] and "inscall" not in (a[0], b[0])
+        ]
+    else:
+        modsets = [[list(m)] for m in ALL_MODS]
+    for mods in modsets:
+        if tier == "thorough" and abi == "x64-elf" and part == "mods":
             byte_sets = [sum(c) for r in range(6) for c in itertools.combinations(byte_bits, r)]
             table_sets = [allowed & TABLE_MASK, 0]
         else:
@@ -1093,14 +1157,15 @@ def cases_of(task):
         for bs in byte_sets:
             for ts in table_sets:
                 uses = bs | ts
-                if op != "inscall":
-                    uses |= UBIT[place]
+                for op, place in mods:
+                    if op != "inscall":
+                        uses |= UBIT[place]
                 if kinds[0] == "d":
                     uses &= ~CF_USES
                 if uses in seen:
                     continue
                 seen.add(uses)
-                c = {"abi": abi, "pie": pie, "kinds": kinds, "uses": uses, "style": 0, "mod": list(mod)}
+                c = {"abi": abi, "pie": pie, "kinds": kinds, "uses": uses, "style": 0, "mod": mods}
                 if not mod_applicable(c):
                     continue
                 for rset in RSETS:
